@@ -217,7 +217,37 @@ def sink_field_atoms(fns, sink_pat, arg_filter=None):
                     for s in atom.steps:
                         if isinstance(s, tuple):
                             covered[s].append((f.id, t.get("line", 0)))
+                    if atom.kind == "call":
+                        # value computed by a workspace helper: the fields that helper reads into its return value
+                        for s in ret_field_steps(f.prog, atom.key[0]):
+                            covered[s].append((f.id, t.get("line", 0)))
     return covered, nsinks
+
+
+_ret_memo = {}
+
+
+def ret_field_steps(prog, fid, depth=0):
+    """Field steps occurring in the deep origins of a workspace function's return value (transitively through
+    the helpers it calls, bounded depth)."""
+    key = (id(prog), fid)
+    if key in _ret_memo:
+        return _ret_memo[key]
+    f = prog.fns.get(fid)
+    if f is None or depth > 4:
+        return frozenset()
+    _ret_memo[key] = frozenset()
+    out = set()
+    og = f.origins()
+    for atom in og.of_local(0, deep=True):
+        for s in atom.steps:
+            if isinstance(s, tuple):
+                out.add(s)
+        if atom.kind == "call":
+            out |= ret_field_steps(prog, atom.key[0], depth + 1)
+    res = frozenset(out)
+    _ret_memo[key] = res
+    return res
 
 
 def adt_obligations(prog, roots, stop_adts=(), max_depth=8):
@@ -623,3 +653,144 @@ NONDET = (r"^std::time::(SystemTime|Instant)::now$|^std::time::Instant::elapsed$
           r"^std::env::(var|vars|var_os|args|current_dir|temp_dir)|^std::thread::(current|available_parallelism)$|"
           r"RandomState::new$|^std::hash::random::|^std::collections::hash_map::|^std::collections::HashMap|^std::collections::HashSet|"
           r"^std::collections::hash::|^std::process::id$|^std::ptr::.*::addr$|^core::ptr::.*::addr$")
+
+
+# ------------------------------------------------------------------ presence / result usage
+
+def local_uses(fn, local, include_cleanup=False):
+    """[(bb, how)] where `local` (whole or projected) is read: statement operand, call arg, switch, return move."""
+    out = []
+    for bi, b in enumerate(fn.blocks):
+        if b["cl"] and not include_cleanup:
+            continue
+        for st in b["st"]:
+            if st[0] != "a":
+                continue
+            rv = st[2]
+            for o in operands_of_rvalue(rv):
+                p = op_place(o)
+                if p is not None and p[0] == local:
+                    out.append((bi, "stmt", st))
+            if "p" in rv and rv["p"][0] == local:
+                out.append((bi, "stmt", st))
+            # writing through a projection of local whose index is local
+        t = b["t"]
+        if t["t"] in ("call", "tailcall"):
+            for o in t["args"]:
+                p = op_place(o)
+                if p is not None and p[0] == local:
+                    out.append((bi, "arg", t))
+            if "ind" in t["fn"]:
+                p = op_place(t["fn"].get("o", {}))
+                if p is not None and p[0] == local:
+                    out.append((bi, "callee", t))
+        elif t["t"] == "sw":
+            p = op_place(t["o"])
+            if p is not None and p[0] == local:
+                out.append((bi, "switch", t))
+    return out
+
+
+PASS_THROUGH = re.compile(r"Result.*::(ok|err|map|map_err|as_ref|as_mut|and_then|or_else|inspect_err|inspect)$|Option.*::(map|as_ref|ok_or|ok_or_else|and_then)$")
+
+
+def result_inspected(fn, bb, depth=0):
+    """Is the value produced by the call at `bb` actually inspected/propagated (not silently dropped)?
+    Accepted idioms: `?` (Try::branch), discriminant read (match / if let), returned, passed to another function
+    that is not a pure pass-through adapter whose own result is dropped, stored into a place."""
+    t = fn.blocks[bb]["t"]
+    dest = t["dest"]
+    if dest[0] == 0:
+        return True, "returned"
+    if dest[1]:
+        return True, "stored"
+    uses = local_uses(fn, dest[0])
+    if not uses:
+        return False, "result is never read (dropped)"
+    for (b2, how, x) in uses:
+        if how == "switch":
+            return True, "switched"
+        if how == "stmt":
+            st = x
+            rv = st[2]
+            if rv["r"] == "disc":
+                return True, "matched"
+            # moved into another local / aggregate / _0
+            tgt = st[1]
+            if tgt[0] == 0 or tgt[1]:
+                return True, "returned/stored"
+            if depth < 4:
+                # follow the move
+                sub_uses = local_uses(fn, tgt[0])
+                if any(h in ("switch", "arg", "callee") or (h == "stmt") for (_, h, _) in sub_uses):
+                    return True, "moved and used"
+        if how == "arg":
+            tt = x
+            callee = fn.callee_of(tt) or tt["fn"].get("d", "") or ""
+            if PASS_THROUGH.search(callee) and depth < 4:
+                okk, why = result_inspected(fn, b2, depth + 1)
+                if okk:
+                    return True, "via " + callee.rsplit("::", 1)[-1] + ": " + why
+                continue
+            if callee.endswith("mem::drop") or callee.endswith("::forget"):
+                continue
+            return True, "passed to " + callee.rsplit("::", 1)[-1]
+    return False, "result only flows into adapters whose value is dropped"
+
+
+def presence_edges(fn, bb):
+    """For a call at `bb` yielding Option/Result/bool, the CFG edges taken when the value is
+    'present' (Some/Ok/true) and 'absent' (None/Err/false).  Looks through is_none/is_some/is_ok/is_err/`!`."""
+    t = fn.blocks[bb]["t"]
+    out = {"present": [], "absent": []}
+    if t["t"] != "call" or t["dest"][1]:
+        return out
+    res = result_edges(fn, bb)
+    for e in res["some"] + res["ok"]:
+        out["present"].append(e)
+    for e in res["none"] + res["err"]:
+        out["absent"].append(e)
+    dest = t["dest"][0]
+    # direct bool
+    if fn.locals[dest] == "bool":
+        for sw in switch_edges_on_local(fn, dest):
+            out["present"].append((sw["sw"], sw["true"]))
+            out["absent"].append((sw["sw"], sw["false"]))
+    # adapters
+    for (b2, how, x) in local_uses(fn, dest):
+        if how != "arg":
+            # a reference to the result may be taken first:  _r = &dest; is_none(move _r)
+            if how == "stmt" and x[2]["r"] == "ref" and not x[1][1]:
+                for (b3, how3, x3) in local_uses(fn, x[1][0]):
+                    if how3 == "arg":
+                        _presence_adapter(fn, b3, x3, out)
+            continue
+        _presence_adapter(fn, b2, x, out)
+    return out
+
+
+def _presence_adapter(fn, b2, tt, out):
+    callee = fn.callee_of(tt) or ""
+    nm = callee.rsplit("::", 1)[-1]
+    if nm in ("is_none", "is_err"):
+        for sw in switch_edges_on_local(fn, tt["dest"][0]):
+            out["absent"].append((sw["sw"], sw["true"]))
+            out["present"].append((sw["sw"], sw["false"]))
+    elif nm in ("is_some", "is_ok"):
+        for sw in switch_edges_on_local(fn, tt["dest"][0]):
+            out["present"].append((sw["sw"], sw["true"]))
+            out["absent"].append((sw["sw"], sw["false"]))
+
+
+def absent_blocks_mutation(fn, guard_bb, mutation_blocks):
+    """The 'absent' outcome of the guard call at guard_bb can never reach a mutation block (within the function,
+    cutting the present edges).  Returns (recognised, witness_path_or_None)."""
+    pe = presence_edges(fn, guard_bb)
+    if not pe["absent"]:
+        return False, None
+    present = set(pe["present"])
+    for (sw, tgt) in pe["absent"]:
+        w = fn.path([tgt], mutation_blocks, avoid_edges=present)
+        if w is not None:
+            return True, w
+    return True, None
